@@ -25,4 +25,15 @@ def Err.name : Err → String
 
 deriving instance DecidableEq for Except
 
+namespace Secrets
+/-- decimal digits of a natural number (`str(n)`), written out so that it can be reasoned about -/
+def decDigitsAux : Nat → Nat → List Char → List Char
+  | 0, _, acc => acc
+  | f + 1, n, acc =>
+    let d := Char.ofNat (48 + n % 10)
+    if n < 10 then d :: acc else decDigitsAux f (n / 10) (d :: acc)
+/-- `str(n)` -/
+def decDigits (n : Nat) : List Char := decDigitsAux (n + 1) n []
+end Secrets
+
 end Netconan
